@@ -228,6 +228,28 @@ func registerReflectTypeOf(e *Engine) {
 	}
 }
 
+// context.WithValue asks internal/reflectlite whether the key is comparable
+func registerReflectliteTypeOf(e *Engine) {
+	e.intrinsics["internal/reflectlite.TypeOf"] = func(x *Exec, fn *ssa.Function, a []Value) (Value, bool) {
+		iv := a[0].(*IfaceVal)
+		if iv.T == nil {
+			return nilIface, true
+		}
+		rt := x.eng.findType("internal/reflectlite", "rtype")
+		if rt == nil {
+			panic(unsupported("reflectlite.rtype not in program"))
+		}
+		return &IfaceVal{T: rt, V: &NativeVal{V: iv.T}}, true
+	}
+	e.intrinsics["(internal/reflectlite.rtype).Comparable"] = func(x *Exec, fn *ssa.Function, a []Value) (Value, bool) {
+		nv, ok := a[0].(*NativeVal)
+		if !ok {
+			panic(unsupported("reflectlite.Type receiver is not a modelled handle"))
+		}
+		return mkBool(types.Comparable(nv.V.(types.Type))), true
+	}
+}
+
 func mkSliceOfIface(sl *SliceVal) Value {
 	var vs []Value
 	for i := 0; i < sl.Len; i++ {
